@@ -359,8 +359,9 @@ func (k *ExtendedKey) Neuter() (*ExtendedKey, error) {
 	// key will simply be the pubkey of the current extended private key.
 	//
 	// This is the function N((k,c)) -> (K, c) from [BIP32].
-	return NewExtendedKey(version, k.pubKeyBytes(), k.chainCode, k.parentFP,
-		k.depth, k.childNum, false), nil
+	clone := func(b []byte) []byte { return append([]byte(nil), b...) }
+	return NewExtendedKey(version, clone(k.pubKeyBytes()), clone(k.chainCode),
+		clone(k.parentFP), k.depth, k.childNum, false), nil
 }
 
 // ECPubKey converts the extended key to a bchec public key and returns it.
